@@ -1,4 +1,4 @@
-import XdslProofs.Lemmas.DeclFormatList
+import XdslProofs.Lemmas.DeclFormatAgg
 /-!
 C05 helper lemmas, part 2: one simple directive parses back what it printed.
 `replayS` is the specification of the state change: "the slot of the directive receives the value
@@ -37,6 +37,13 @@ def dictState (st : PState) (expProps : List String) (d : List (String × Nat)) 
   { st with props := (d.filter (fun p => expProps.contains p.1)).foldl (fun m p => AL.set m p.1 p.2) st.props,
             attrs := (d.filter (fun p => !expProps.contains p.1)).foldl (fun m p => AL.set m p.1 p.2) st.attrs }
 
+/-- what `set_types` of a typeable directive does with the operation's own types -/
+def replayTy (op : OpInst) : TyRef → PState → PState
+  | .operand i _, st => { st with operandTys := AL.set st.operandTys i (seg op.operandTys i) }
+  | .result i _, st => { st with resultTys := AL.set st.resultTys i (seg op.resultTys i) }
+  | .operands, st => { st with operandTys := setAll st.operandTys op.operandTys }
+  | .results, st => { st with resultTys := setAll st.resultTys op.resultTys }
+
 /-- what parsing directive `d` should do to the state when the text was printed from `op` -/
 def replayS (D : Defs) (op : OpInst) (d : SDir) (st : PState) : PState :=
   match d with
@@ -51,10 +58,22 @@ def replayS (D : Defs) (op : OpInst) (d : SDir) (st : PState) : PState :=
     | some v => if optional && dflt == some v then st else setDict isProp st name v
   | .unitAttr name isProp u => setDict isProp st name u
   | .attrDict _ reserved expProps => dictState st expProps (dictEntries D reserved expProps op)
+  | .operandsAll => { st with operands := setAll st.operands op.operands }
+  | .operandTysAll => { st with operandTys := setAll st.operandTys op.operandTys }
+  | .resultTysAll => { st with resultTys := setAll st.resultTys op.resultTys }
+  | .funcTy ins outs => replayTy op outs (replayTy op ins st)
   | _ => st
 
+/-- the types a typeable directive stands for have the cardinalities its flavour / the definitions
+promise -/
+def okTy (D : Defs) (op : OpInst) : TyRef → Prop
+  | .operand i k => fitsK k (seg op.operandTys i) = true
+  | .result i k => fitsK k (seg op.resultTys i) = true
+  | .operands => fits D.operandKinds op.operandTys = true
+  | .results => fits D.resultKinds op.resultTys = true
+
 /-- the instance has the cardinalities the directive's flavour promises (part of "verifies") -/
-def okInst (op : OpInst) : SDir → Prop
+def okInst (D : Defs) (op : OpInst) : SDir → Prop
   | .operand i .single => (seg op.operands i).length = 1
   | .operand i .opt => (seg op.operands i).length ≤ 1
   | .operandTy i .single => (seg op.operandTys i).length = 1
@@ -66,6 +85,10 @@ def okInst (op : OpInst) : SDir → Prop
   | .succ i .single => (seg op.succs i).length = 1
   | .succ i .opt => (seg op.succs i).length ≤ 1
   | .attr name isProp optional _ => optional = false → (dictGet isProp op name).isSome = true
+  | .operandsAll => fits D.operandKinds op.operands = true
+  | .operandTysAll => fits D.operandKinds op.operandTys = true
+  | .resultTysAll => fits D.resultKinds op.resultTys = true
+  | .funcTy ins outs => okTy D op ins ∧ okTy D op outs
   | _ => True
 
 /-- the token after the directive is not one the directive would take -/
@@ -74,14 +97,50 @@ structure FollowOK (d : SDir) (rest : List Tok) : Prop where
   comma : commaLike d = true → clsHd rest ≠ Cls.punct ","
   brace : regionLike d = true → clsBadBrace (clsHd rest) = false
 
-theorem len1 {xs : List Nat} (h : xs.length = 1) : ∃ x, xs = [x] := by
-  match xs, h with
-  | [x], _ => exact ⟨x, rfl⟩
+/-- `set_types` with the operation's own types -/
+theorem setTyRef_get (D : Defs) (op : OpInst) (r : TyRef) (st : PState)
+    (hok : okTy D op r) (ha : okAggTy D r = true) :
+    setTyRef D st r (tyRefGet op r) = some (replayTy op r st) := by
+  cases r with
+  | operand i k => rfl
+  | result i k => rfl
+  | operands =>
+    simp only [okAggTy, Bool.and_eq_true] at ha
+    simp [setTyRef, tyRefGet, replayTy, splitByKinds_flatten _ _ hok ha.2]
+  | results =>
+    simp only [okAggTy, Bool.and_eq_true] at ha
+    simp [setTyRef, tyRefGet, replayTy, splitByKinds_flatten _ _ hok ha.2]
 
-theorem le1 {xs : List Nat} (h : xs.length ≤ 1) : xs = [] ∨ ∃ x, xs = [x] := by
-  match xs, h with
-  | [], _ => exact Or.inl rfl
-  | [x], _ => exact Or.inr ⟨x, rfl⟩
+theorem fitsK_tyRefKind (D : Defs) (op : OpInst) (r : TyRef) (hok : okTy D op r) :
+    fitsK (tyRefKind r) (tyRefGet op r) = true := by
+  cases r <;> first | exact hok | rfl
+
+/-- `parse_types` of a typeable directive inside `functional-type(…)`: the list is closed by `)` -/
+theorem parseTyRef_print (D : Defs) (op : OpInst) (r : TyRef) (rest : List Tok) (st : PState)
+    (hok : okTy D op r) (ha : okAggTy D r = true) :
+    parseTyRef D r (commaSep Tok.ty (tyRefGet op r) ++ Tok.punct ")" :: rest) st =
+      some (replayTy op r st, Tok.punct ")" :: rest) := by
+  have hset := setTyRef_get D op r st hok ha
+  have hk := fitsK_tyRefKind D op r hok
+  have hpass : Passes selTy badTy (Tok.punct ")" :: rest) := ⟨rfl, by decide⟩
+  unfold parseTyRef
+  cases hkind : tyRefKind r with
+  | single =>
+    rw [hkind] at hk
+    obtain ⟨x, hx⟩ := len1 (by simpa [fitsK] using hk)
+    rw [hx] at hset
+    simp [hx, commaSep, commaTail, reqOne, selTy, hset]
+  | opt =>
+    rw [hkind] at hk
+    rcases le1 (by simpa [fitsK] using hk) with hx | ⟨x, hx⟩
+    · rw [hx] at hset
+      simp [hx, commaSep, optOne_none badTy _ hpass, hset]
+    · rw [hx] at hset
+      simp [hx, commaSep, commaTail, optOne, selTy, hset]
+  | var =>
+    have := optList_commaSep selMk_ty badTy (tyRefGet op r) (Tok.punct ")" :: rest)
+      (by simp [clsOf]) (fun _ => hpass)
+    simp [this, hset]
 
 theorem dictEntries_not_reserved (D : Defs) (reserved expProps : List String) (op : OpInst) :
     (dictEntries D reserved expProps op).any (fun p => reserved.contains p.1) = false := by
@@ -95,8 +154,7 @@ theorem dictEntries_not_reserved (D : Defs) (reserved expProps : List String) (o
 /-- a simple directive of the proved fragment parses back exactly the tokens it printed and puts the
 operation's own value into its slot -/
 theorem parseS_printS (D : Defs) (op : OpInst) (d : SDir) (rest : List Tok) (st : PState)
-    (hfrag : inFragment d = true)
-    (hinst : okInst op d) (hf : FollowOK d rest) :
+    (hinst : okInst D op d) (ha : okAgg D d = true) (hf : FollowOK d rest) :
     ∃ b, parseS D d (printS D op d ++ rest) st = some (b, replayS D op d st, rest) := by
   cases d with
   | kw s => exact ⟨true, by simp [parseS, printS, replayS]⟩
@@ -228,9 +286,53 @@ theorem parseS_printS (D : Defs) (op : OpInst) (d : SDir) (rest : List Tok) (st 
           simp only [parseS, printS, replayS, hes, dictState, List.isEmpty_cons, Bool.false_eq_true, if_false,
             if_true, List.nil_append, List.cons_append, List.singleton_append, hres]
           simp⟩
-  | operandsAll => simp [inFragment] at hfrag
-  | operandTysAll => simp [inFragment] at hfrag
-  | resultTysAll => simp [inFragment] at hfrag
-  | funcTy a b => simp [inFragment] at hfrag
+  | operandsAll =>
+    simp only [okAgg, Bool.and_eq_true] at ha
+    refine ⟨!op.operands.flatten.isEmpty, ?_⟩
+    have := optList_commaSep selMk_val badNone op.operands.flatten rest (hf.comma rfl)
+      (fun _ => passes_val (hf.absent rfl))
+    simp [parseS, printS, replayS, this, splitByKinds_flatten _ _ hinst ha.2]
+  | operandTysAll =>
+    simp only [okAgg, Bool.and_eq_true] at ha
+    refine ⟨!op.operandTys.flatten.isEmpty, ?_⟩
+    have := optList_commaSep selMk_ty badTy op.operandTys.flatten rest (hf.comma rfl)
+      (fun _ => passes_ty (hf.absent rfl))
+    simp [parseS, printS, replayS, this, setTyRef, splitByKinds_flatten _ _ hinst ha.2]
+  | resultTysAll =>
+    simp only [okAgg, Bool.and_eq_true] at ha
+    refine ⟨!op.resultTys.flatten.isEmpty, ?_⟩
+    have := optList_commaSep selMk_ty badTy op.resultTys.flatten rest (hf.comma rfl)
+      (fun _ => passes_ty (hf.absent rfl))
+    simp [parseS, printS, replayS, this, setTyRef, splitByKinds_flatten _ _ hinst ha.2]
+  | funcTy ins outs =>
+    simp only [okAgg, Bool.and_eq_true] at ha
+    obtain ⟨hi, ho⟩ := hinst
+    refine ⟨true, ?_⟩
+    have h1 := fun r' => parseTyRef_print D op ins r' st hi ha.1
+    have h2 := fun r' => parseTyRef_print D op outs r' (replayTy op ins st) ho ha.2
+    have hset := setTyRef_get D op outs (replayTy op ins st) ho ha.2
+    simp only [printS, parseS, replayS, List.cons_append, List.nil_append, List.append_assoc, if_true]
+    rw [h1]
+    simp only [Option.bind_some, expectPunct, if_true]
+    cases hrs : tyRefGet op outs with
+    | nil =>
+      have h2' := h2 rest
+      rw [hrs] at h2'
+      simp only [commaSep, List.nil_append] at h2'
+      simp [commaSep, h2', expectPunct]
+    | cons t tl =>
+      cases tl with
+      | nil =>
+        by_cases hft : t ∈ D.funcTys
+        · have h2' := h2 rest
+          rw [hrs] at h2'
+          simp only [commaSep, commaTail, List.cons_append, List.nil_append] at h2'
+          simp [hft, h2', expectPunct]
+        · rw [hrs] at hset
+          simp [hft, reqOne, selTy, hset]
+      | cons u tl' =>
+        have h2' := h2 rest
+        rw [hrs] at h2'
+        simp [h2', expectPunct]
 
 end Xdsl.DeclFormat
